@@ -15,7 +15,7 @@ fn main() {
     // a sequential in-memory case never blocks on the client; if the library blocks on itself the
     // worker hangs: report that as inconclusive (the scheduled engine decides stalls exactly)
     std::thread::spawn(|| {
-        let limit = std::env::var("VERIF_HOOK_WATCHDOG_S").ok().and_then(|s| s.parse().ok()).unwrap_or(25u64);
+        let limit = std::env::var("VERIF_HOOK_WATCHDOG_S").ok().and_then(|s| s.parse().ok()).unwrap_or(90u64);
         let mut last = vcore::runner::PROGRESS.load(std::sync::atomic::Ordering::Relaxed);
         let mut idle = 0u64;
         loop {
